@@ -65,6 +65,7 @@ class Profile:
         self.p_sealed = 0.15             # an interface whose only method is unexported ("sealed")
         self.p_name_placeholder = 0.1    # a by-name point whose name comes from configuration: wire:"${key}" / "${nokey:name}"
         self.p_embed_points = 0.1        # injection points declared in an embedded struct of an unexported type
+        self.p_reqspell = 0.12           # a required point spells the argument out (`required`, `required=True`, `required=no`, ...)
         self.p_initget = 0.0             # a component's Init asks the container for other components (extras: Model/FactoryX.v)
         self.p_short = 0.0               # a processor short-circuits the instantiation of some components (extras)
         self.perms = 1
@@ -231,6 +232,8 @@ def gen_scenario(rng, sid, pf):
                 p["slice"] = rng.random() < 0.4
             if rng.random() < pf.p_pointqual:
                 p["quals"] = rng.sample(QUALS, rng.randint(1, 2))
+            if p["required"] and rng.random() < pf.p_reqspell:
+                p["reqspell"] = rng.choice(["", "=true", "=True", "=1", "=yes", "=FALSE", "=no"])
             (func if kind == "func" else wire).append(p)
         t["fields"] = wire + func
         if rng.random() < pf.p_cfg:
@@ -421,6 +424,8 @@ def tag_of(p, key=None):
         args += ",qualifier=" + " ".join(p["quals"])
     if not p["required"]:
         args += ",required=false"
+    elif p.get("reqspell") is not None:
+        args += ",required" + p["reqspell"]      # legal spellings that all mean "required": only the value `false` opts out
     if sel[0] == "func":
         if sel[2] is not None:
             args = ",returns=" + " ".join(sel[2]) + args
